@@ -2,6 +2,7 @@ import A816.Model.OpsBasic
 import A816.Model.OpsExpr
 import A816.Model.OpsCpu
 import A816.Model.OpsIps
+import A816.Model.OpsTable
 /-! Line-protocol driver: one operation per line on stdin, one canonical answer per line on stdout.
     This file contains the only `partial def` of the project (the I/O loop); no theorem imports it. -/
 open A816
@@ -18,6 +19,9 @@ def handle (line : String) : String :=
   | some r => r
   | none =>
   match Ops.handleIps ws with
+  | some r => r
+  | none =>
+  match Ops.handleTable ws with
   | some r => r
   | none => "bad-op"
 
